@@ -12,6 +12,49 @@ Arguments event_loop : simpl never.
 Arguments exec : simpl never.
 Arguments send_event : simpl never.
 
+(* the data of the last DURABLE record while walking a trace *)
+Definition lp_step (lp : swap_data) (e : effect) : swap_data :=
+  match e with EPersist _ d true => d | _ => lp end.
+Definition lp_end (lp : swap_data) (es : list effect) : swap_data := fold_left lp_step es lp.
+
+(* every effect satisfies P relative to the record that was durable when it happened *)
+Fixpoint trace_ok (P : swap_data -> effect -> Prop) (lp : swap_data) (es : list effect) : Prop :=
+  match es with
+  | [] => True
+  | e :: r => P lp e /\ trace_ok P (lp_step lp e) r
+  end.
+
+Lemma trace_ok_app P lp es1 es2 :
+  trace_ok P lp (es1 ++ es2) <-> trace_ok P lp es1 /\ trace_ok P (lp_end lp es1) es2.
+Proof.
+  revert lp. induction es1 as [|e r IH]; intros lp; simpl.
+  - tauto.
+  - rewrite IH. unfold lp_end. simpl. tauto.
+Qed.
+
+Lemma lp_end_app lp es1 es2 : lp_end lp (es1 ++ es2) = lp_end (lp_end lp es1) es2.
+Proof. unfold lp_end. apply fold_left_app. Qed.
+
+Definition not_persist (e : effect) : Prop := match e with EPersist _ _ _ => False | _ => True end.
+
+Lemma lp_end_no_persist lp es : Forall not_persist es -> lp_end lp es = lp.
+Proof.
+  intros F. revert lp. induction F as [|e r He _ IH]; intros lp; [reflexivity|].
+  unfold lp_end in *. simpl. rewrite IH. destruct e; simpl in *; tauto.
+Qed.
+
+Lemma trace_ok_no_persist (P : swap_data -> effect -> Prop) lp es :
+  Forall (fun e => P lp e /\ not_persist e) es -> trace_ok P lp es.
+Proof.
+  intros F. induction F as [|e r [He Hn] _ IH]; simpl; auto. split; auto.
+  destruct e; simpl in *; tauto.
+Qed.
+
+Lemma trace_ok_firstn P lp es k : trace_ok P lp es -> trace_ok P lp (firstn k es).
+Proof.
+  revert lp k. induction es as [|e r IH]; intros lp [|k]; simpl; auto. intros [H1 H2]. auto.
+Qed.
+
 Section Rule.
 Variable tc : tl_consts.
 Variable decode : string -> option (string * Z * Z).
@@ -19,7 +62,7 @@ Variable t : table.
 Variable terminal : list string.
 
 Variable I : machine -> Prop.            (* holds at every loop head and at rest *)
-Variable P : effect -> Prop.             (* holds of every effect *)
+Variable P : swap_data -> effect -> Prop. (* holds of every effect, relative to the last durable record *)
 Variable E : machine -> string -> Prop.  (* which event may be processed in which machine state *)
 
 (* the machine right after the transition to [nxt], before the action runs *)
@@ -28,7 +71,7 @@ Definition enter (m : machine) (nxt : string) : machine :=
 
 Hypothesis I_retries : forall m r, I m -> I (m <| m_retries := r |>).
 Hypothesis E_retries : forall m r ev, E m ev -> E (m <| m_retries := r |>) ev.
-Hypothesis P_persist : forall m, I m -> P (EPersist (m_cur m) (m_data m)).
+Hypothesis P_persist : forall m lp ok, I m -> P lp (EPersist (m_cur m) (m_data m) ok).
 
 (* one transition: the action of the next state runs on the entered machine *)
 Hypothesis act_rule :
@@ -36,12 +79,18 @@ Hypothesis act_rule :
     next_state t (m_cur m) ev = Some nxt -> lookup_state t nxt = Some sd -> st_action sd = Some act ->
     forall w ev' d' w' es,
       exec tc decode action_fuel act (m_data (enter m nxt)) w = ((ev', d'), w', es) ->
-      Forall P es /\ I ((enter m nxt) <| m_data := d' |>) /\ E ((enter m nxt) <| m_data := d' |>) ev'.
+      Forall (fun e => P (m_data m) e /\ not_persist e) es /\
+      I ((enter m nxt) <| m_data := d' |>) /\ E ((enter m nxt) <| m_data := d' |>) ev'.
 
-Lemma persist_spec m : I m -> emits P (persist m).
+Lemma persist_inv m w ok w' es :
+  persist m w = (ok, w', es) -> es = [EPersist (m_cur m) (m_data m) ok].
 Proof.
-  intros HI. unfold persist. apply emits_bind; [apply emits_pop|intros ok].
-  apply emits_bind; [apply emits_emit; auto|intros _]. apply emits_ret.
+  unfold persist. intros H. apply bind_inv in H.
+  destruct H as (ok0 & w1 & e1 & e2 & Hp & H & ->).
+  apply pop_inv in Hp. subst e1.
+  apply bind_inv in H. destruct H as (u & w2 & e3 & e4 & He & H & ->).
+  apply emit_inv in He. destruct He as (-> & ->).
+  apply ret_inv in H. destruct H as (-> & _ & ->). reflexivity.
 Qed.
 
 Lemma event_loop_S fuel m ev :
@@ -77,43 +126,54 @@ Proof. reflexivity. Qed.
 Lemma event_loop_rule fuel : forall m ev w m' res w' es,
   I m -> E m ev ->
   event_loop tc decode t fuel m ev w = ((m', res), w', es) ->
-  Forall P es /\ I m'.
+  trace_ok P (m_data m) es /\ I m'.
 Proof.
   induction fuel as [|fuel IH]; intros m ev w m' res w' es HI HE H.
-  - unfold event_loop in H. apply ret_inv in H. destruct H as (H & _ & ->). inversion H; subst. auto.
+  - unfold event_loop in H. apply ret_inv in H. destruct H as (H & _ & ->). inversion H; subst. simpl. auto.
   - rewrite event_loop_S in H.
     destruct (next_state t (m_cur m) ev) as [nxt|] eqn:Hn.
-    2:{ apply ret_inv in H. destruct H as (H & _ & ->). inversion H; subst. auto. }
+    2:{ apply ret_inv in H. destruct H as (H & _ & ->). inversion H; subst. simpl. auto. }
     destruct (lookup_state t nxt) as [sd|] eqn:Hl.
-    2:{ apply ret_inv in H. destruct H as (H & _ & ->). inversion H; subst. auto. }
+    2:{ apply ret_inv in H. destruct H as (H & _ & ->). inversion H; subst. simpl. auto. }
     destruct (st_action sd) as [act|] eqn:Ha.
-    2:{ apply ret_inv in H. destruct H as (H & _ & ->). inversion H; subst. auto. }
+    2:{ apply ret_inv in H. destruct H as (H & _ & ->). inversion H; subst. simpl. auto. }
     cbv zeta in H.
     apply bind_inv in H. destruct H as ([ev' d'] & w1 & e1 & e2 & Hex & H & ->).
     destruct (act_rule m ev nxt sd act HI HE Hn Hl Ha _ _ _ _ _ Hex) as (F1 & HI2 & HE2).
+    assert (T1 : trace_ok P (m_data m) e1) by (apply trace_ok_no_persist; exact F1).
+    assert (L1 : lp_end (m_data m) e1 = m_data m).
+    { apply lp_end_no_persist. eapply Forall_impl; [|exact F1]. intros e [_ Hn']. exact Hn'. }
     set (m2 := (enter m nxt) <| m_data := d' |>) in *.
     destruct (String.eqb ev' Ev_Panic).
     { apply ret_inv in H. destruct H as (H & _ & ->). inversion H; subst.
       rewrite app_nil_r. auto. }
     apply bind_inv in H. destruct H as (ok & w2 & e3 & e4 & Hp & H & ->).
-    assert (F3 : Forall P e3) by (eapply persist_spec; eauto).
-    destruct (negb ok).
-    { apply ret_inv in H. destruct H as (H & _ & ->). inversion H; subst.
-      rewrite app_nil_r. split; auto. apply Forall_app; auto. }
+    apply persist_inv in Hp. subst e3.
+    assert (T3 : trace_ok P (m_data m) [EPersist (m_cur m2) (m_data m2) ok]).
+    { cbn [trace_ok]. split; [exact (P_persist m2 (m_data m) ok HI2)|exact Logic.I]. }
+    destruct ok; cbn [negb] in H.
+    2:{ apply ret_inv in H. destruct H as (H & _ & ->). inversion H; subst.
+        rewrite app_nil_r. split; auto. apply trace_ok_app. rewrite L1. auto. }
+    assert (Hfin : forall mm, I mm -> m_data mm = m_data m2 ->
+              trace_ok P (m_data m) (e1 ++ [EPersist (m_cur m2) (m_data m2) true] ++ []) /\ I mm).
+    { intros mm Hmm _. split; auto. rewrite app_nil_r. apply trace_ok_app. rewrite L1. auto. }
+    assert (Hrec : forall mm evx wx mx rx wy ey, I mm -> E mm evx -> m_data mm = m_data m2 ->
+              event_loop tc decode t fuel mm evx wx = ((mx, rx), wy, ey) ->
+              trace_ok P (m_data m) (e1 ++ [EPersist (m_cur m2) (m_data m2) true] ++ ey) /\ I mx).
+    { intros mm evx wx mx rx wy ey Hmm HEm Hd Hl'. apply IH in Hl'; auto. destruct Hl' as [T4 HIx].
+      split; auto. apply trace_ok_app. rewrite L1. split; auto.
+      cbn [trace_ok lp_step]. split; [exact (P_persist m2 (m_data m) true HI2)|]. rewrite <- Hd. exact T4. }
     destruct (String.eqb ev' Ev_Done).
-    { apply ret_inv in H. destruct H as (H & _ & ->). inversion H; subst.
-      rewrite app_nil_r. split; auto. apply Forall_app; auto. }
+    { apply ret_inv in H. destruct H as (H & _ & ->). inversion H; subst. apply Hfin; auto. }
     destruct (String.eqb ev' Ev_NoOp).
-    { apply ret_inv in H. destruct H as (H & _ & ->). inversion H; subst.
-      rewrite app_nil_r. split; auto. apply Forall_app; auto. }
+    { apply ret_inv in H. destruct H as (H & _ & ->). inversion H; subst. apply Hfin; auto. }
     destruct (String.eqb ev' Ev_Retry).
-    + destruct (20 <? m_retries (m2 <| m_retries := m_retries m2 + 1 |>)).
+    + cbv zeta in H.
+      destruct (20 <? m_retries (m2 <| m_retries := m_retries m2 + 1 |>)).
       * apply ret_inv in H. destruct H as (H & _ & ->). inversion H; subst.
-        rewrite app_nil_r. split; [apply Forall_app; auto|]. apply I_retries. apply I_retries. auto.
-      * apply IH in H; [|apply I_retries; auto|apply E_retries; auto].
-        destruct H as [F4 HI']. split; auto. apply Forall_app. split; auto. apply Forall_app; auto.
-    + apply IH in H; auto.
-      destruct H as [F4 HI']. split; auto. apply Forall_app. split; auto. apply Forall_app; auto.
+        apply Hfin; [apply I_retries; apply I_retries; auto | reflexivity].
+      * apply (Hrec (m2 <| m_retries := m_retries m2 + 1 |>) ev' w2 m' res w' e4); auto.
+    + apply (Hrec m2 ev' w2 m' res w' e4); auto.
 Qed.
 
 (* what the caller has to know about the event context of a SendEvent *)
@@ -126,41 +186,34 @@ Definition ctx_ok (m : machine) (ev : string) (ctx : option wire_msg) : Prop :=
                   I (m <| m_data := d' |>) /\ E (m <| m_data := d' |>) ev)
   end.
 
-Lemma send_event_rule m ev ctx w m' res w' es :
+Lemma send_event_rule m ev ctx lp w m' res w' es :
   I m -> ctx_ok m ev ctx ->
   send_event tc decode t m ev ctx w = ((m', res), w', es) ->
-  Forall P es /\ I m'.
+  trace_ok P lp es /\ I m'.
 Proof.
   intros HI HC H. unfold send_event in H.
   destruct (String.eqb ev Ev_Done).
-  { apply ret_inv in H. destruct H as (H & _ & ->). inversion H; subst. auto. }
+  { apply ret_inv in H. destruct H as (H & _ & ->). inversion H; subst. simpl. auto. }
+  assert (Key : forall mm evx wx, I mm -> E mm evx ->
+            (ok <- persist mm ;; if negb ok then ret (mm, mkResult false ErrStore)
+                                 else event_loop tc decode t loop_fuel mm evx) wx = ((m', res), w', es) ->
+            trace_ok P lp es /\ I m').
+  { intros mm evx wx Hmm HEm Hk.
+    apply bind_inv in Hk. destruct Hk as (ok & w1 & e1 & e2 & Hp & Hk & ->).
+    apply persist_inv in Hp. subst e1.
+    destruct ok; cbn [negb] in Hk.
+    - apply event_loop_rule in Hk; auto. destruct Hk as [T2 HI']. split; auto.
+      cbn [app trace_ok lp_step]. split; [apply P_persist; assumption|exact T2].
+    - apply ret_inv in Hk. destruct Hk as (Hk & _ & ->). inversion Hk; subst.
+      cbn [app trace_ok]. split; [|assumption]. split; [apply P_persist; assumption|exact Logic.I]. }
   destruct ctx as [c|]; simpl in HC.
   - destruct HC as [HEinv HC].
     destruct (validate_ctx (m_data m) c) eqn:Hv; cbn [negb] in H.
     + destruct (apply_ctx (m_data m) c) as [d'|] eqn:Hap.
-      * destruct (HC d' eq_refl eq_refl) as [HI1 HE1].
-        apply bind_inv in H. destruct H as (ok & w1 & e1 & e2 & Hp & H & ->).
-        assert (F1 : Forall P e1) by (eapply persist_spec; eauto).
-        destruct (negb ok).
-        { apply ret_inv in H. destruct H as (H & _ & ->). inversion H; subst.
-          rewrite app_nil_r. auto. }
-        apply event_loop_rule in H; auto. destruct H as [F2 HI']. split; auto.
-        apply Forall_app; auto.
-      * apply ret_inv in H. destruct H as (H & _ & ->). inversion H; subst. auto.
-    + apply bind_inv in H. destruct H as (ok & w1 & e1 & e2 & Hp & H & ->).
-      assert (F1 : Forall P e1) by (eapply persist_spec; eauto).
-      destruct (negb ok).
-      { apply ret_inv in H. destruct H as (H & _ & ->). inversion H; subst.
-        rewrite app_nil_r. auto. }
-      apply event_loop_rule in H; auto. destruct H as [F2 HI']. split; auto.
-      apply Forall_app; auto.
-  - apply bind_inv in H. destruct H as (ok & w1 & e1 & e2 & Hp & H & ->).
-    assert (F1 : Forall P e1) by (eapply persist_spec; eauto).
-    destruct (negb ok).
-    { apply ret_inv in H. destruct H as (H & _ & ->). inversion H; subst.
-      rewrite app_nil_r. auto. }
-    apply event_loop_rule in H; auto. destruct H as [F2 HI']. split; auto.
-    apply Forall_app; auto.
+      * destruct (HC d' eq_refl eq_refl) as [HI1 HE1]. eapply Key; eauto.
+      * apply ret_inv in H. destruct H as (H & _ & ->). inversion H; subst. simpl. auto.
+    + eapply Key; eauto.
+  - eapply Key; eauto.
 Qed.
 
 (* Recover(): the action of the CURRENT state runs on the machine as restored *)
@@ -170,36 +223,44 @@ Hypothesis recover_rule :
     (st_fail_on_recover sd = false ->
      forall w ev' d' w' es,
        exec tc decode action_fuel act (m_data m) w = ((ev', d'), w', es) ->
-       Forall P es /\ I (m <| m_data := d' |>) /\ E (m <| m_data := d' |>) ev').
+       Forall (fun e => P (m_data m) e /\ not_persist e) es /\
+       I (m <| m_data := d' |>) /\ E (m <| m_data := d' |>) ev').
 
+(* the restored machine's data IS the last durable record *)
 Lemma recover_rule_holds m w m' res w' es :
-  I m -> recover tc decode t m w = ((m', res), w', es) -> Forall P es /\ I m'.
+  I m -> recover tc decode t m w = ((m', res), w', es) -> trace_ok P (m_data m) es /\ I m'.
 Proof.
   intros HI H. unfold recover in H.
   destruct (lookup_state t (m_cur m)) as [sd|] eqn:Hl.
-  2:{ apply ret_inv in H. destruct H as (H & _ & ->). inversion H; subst. auto. }
+  2:{ apply ret_inv in H. destruct H as (H & _ & ->). inversion H; subst. simpl. auto. }
   destruct (st_action sd) as [act|] eqn:Ha.
-  2:{ apply ret_inv in H. destruct H as (H & _ & ->). inversion H; subst. auto. }
+  2:{ apply ret_inv in H. destruct H as (H & _ & ->). inversion H; subst. simpl. auto. }
   destruct (recover_rule m sd act HI Hl Ha) as [Rf Rn].
   destruct (st_fail_on_recover sd) eqn:Hf.
   - assert (Hc : ctx_ok m Ev_Failed None) by (simpl; auto).
-    apply (send_event_rule m Ev_Failed None) in H; auto.
+    apply (send_event_rule m Ev_Failed None (m_data m)) in H; auto.
   - apply bind_inv in H. destruct H as ([ev' d'] & w1 & e1 & e2 & Hex & H & ->).
     destruct (Rn eq_refl _ _ _ _ _ Hex) as (F1 & HI1 & HE1).
+    assert (T1 : trace_ok P (m_data m) e1) by (apply trace_ok_no_persist; exact F1).
+    assert (L1 : lp_end (m_data m) e1 = m_data m).
+    { apply lp_end_no_persist. eapply Forall_impl; [|exact F1]. intros e [_ Hn']. exact Hn'. }
     destruct (String.eqb ev' Ev_Panic).
     { apply ret_inv in H. destruct H as (H & _ & ->). inversion H; subst.
       rewrite app_nil_r. auto. }
     apply bind_inv in H. destruct H as (ok & w2 & e3 & e4 & Hp & H & ->).
-    assert (F3 : Forall P e3) by (eapply persist_spec; eauto).
-    destruct (negb ok).
-    { apply ret_inv in H. destruct H as (H & _ & ->). inversion H; subst.
-      rewrite app_nil_r. split; auto. apply Forall_app; auto. }
+    apply persist_inv in Hp. subst e3.
+    destruct ok; cbn [negb] in H.
+    2:{ apply ret_inv in H. destruct H as (H & _ & ->). inversion H; subst.
+        rewrite app_nil_r. split; auto. apply trace_ok_app. rewrite L1. split; auto.
+        simpl. split; auto. }
     destruct (String.eqb ev' Ev_NoOp).
     { apply ret_inv in H. destruct H as (H & _ & ->). inversion H; subst.
-      rewrite app_nil_r. split; auto. apply Forall_app; auto. }
+      rewrite app_nil_r. split; auto. apply trace_ok_app. rewrite L1. split; auto.
+      simpl. split; auto. }
     assert (Hc : ctx_ok (m <| m_data := d' |>) ev' None) by (simpl; auto).
-    apply (send_event_rule _ ev' None) in H; auto.
-    destruct H as [F4 HI']. split; auto. apply Forall_app. split; auto. apply Forall_app; auto.
+    apply (send_event_rule _ ev' None d') in H; auto.
+    destruct H as [T4 HI']. split; auto. apply trace_ok_app. rewrite L1. split; auto.
+    simpl. split; [apply (P_persist (m <| m_data := d' |>)); auto|exact T4].
 Qed.
 
 (* admissible inputs of a step, as seen by the invariant *)
@@ -217,50 +278,52 @@ Definition input_ok (m : machine) (i : input) : Prop :=
   | InRecover => True
   end.
 
-Theorem step_rule m i w o w' es :
-  I m -> input_ok m i ->
+(* [lp] is the last durable record when the entry point is called; RecoverSwaps
+   works on exactly that record *)
+Theorem step_rule m i lp w o w' es :
+  I m -> input_ok m i -> (i = InRecover -> lp = m_data m) ->
   step tc decode t terminal m i w = (o, w', es) ->
-  Forall P es /\ I (o_machine o).
+  trace_ok P lp es /\ I (o_machine o).
 Proof.
-  intros HI HIn H. destruct i as [ev ctx|rq|hex err| | |]; unfold step in H; cbn [input_ok] in HIn.
+  intros HI HIn Hlp H. destruct i as [ev ctx|rq|hex err| | |]; unfold step in H; cbn [input_ok] in HIn.
   - apply bind_inv in H. destruct H as ([m1 res] & w1 & e1 & e2 & Hs & H & ->).
     apply ret_inv in H. destruct H as (-> & _ & ->). rewrite app_nil_r.
-    apply (send_event_rule m ev ctx) in Hs; auto.
+    apply (send_event_rule m ev ctx lp) in Hs; auto.
   - apply bind_inv in H. destruct H as ([m1 res] & w1 & e1 & e2 & Hs & H & ->).
     apply ret_inv in H. destruct H as (-> & _ & ->). rewrite app_nil_r.
-    apply (send_event_rule m _ _) in Hs; auto.
+    apply (send_event_rule m _ _ lp) in Hs; auto.
   - destruct HIn as [HEf Hhex].
     apply bind_inv in H. destruct H as ([m0 rem0] & w1 & e1 & e2 & H0 & H & ->).
-    assert (Pre : Forall P e1 /\ I m0 /\ (err = false -> m0 = m)).
+    assert (Pre : trace_ok P lp e1 /\ I m0 /\ (err = false -> m0 = m)).
     { destruct err.
       - apply bind_inv in H0. destruct H0 as ([mx rx] & wx & ex & ey & Hs & H0 & ->).
         apply ret_inv in H0. destruct H0 as (H0 & _ & ->). inversion H0; subst.
         rewrite app_nil_r.
         assert (Hc : ctx_ok m Ev_Failed None) by (simpl; auto).
-        apply (send_event_rule m Ev_Failed None) in Hs; auto.
+        apply (send_event_rule m Ev_Failed None lp) in Hs; auto.
         destruct Hs. repeat split; auto. discriminate.
-      - apply ret_inv in H0. destruct H0 as (H0 & _ & ->). inversion H0; subst. auto. }
+      - apply ret_inv in H0. destruct H0 as (H0 & _ & ->). inversion H0; subst. simpl. auto. }
     destruct Pre as (F1 & HI0 & Hm0).
     destruct (Hhex m0 HI0 Hm0) as [HI1 HE1].
     apply bind_inv in H. destruct H as ([m1 res] & w2 & e3 & e4 & Hs & H & ->).
     apply ret_inv in H. destruct H as (-> & _ & ->). rewrite app_nil_r.
     match type of Hs with send_event _ _ _ ?mm _ _ _ = _ =>
       assert (Hc : ctx_ok mm Ev_TxConfirmed None) by (simpl; auto);
-      apply (send_event_rule mm Ev_TxConfirmed None) in Hs; auto end.
-    destruct Hs as [F3 HI']. simpl. split; auto. apply Forall_app; auto.
+      apply (send_event_rule mm Ev_TxConfirmed None (lp_end lp e1)) in Hs; auto end.
+    destruct Hs as [F3 HI']. simpl. split; auto. apply trace_ok_app; auto.
   - apply bind_inv in H. destruct H as ([m1 res] & w1 & e1 & e2 & Hs & H & ->).
     apply ret_inv in H. destruct H as (-> & _ & ->). rewrite app_nil_r.
     assert (Hc : ctx_ok m "Event_OnCsvPassed" None) by (simpl; auto).
-    apply (send_event_rule m _ None) in Hs; auto.
+    apply (send_event_rule m _ None lp) in Hs; auto.
   - apply bind_inv in H. destruct H as ([m1 res] & w1 & e1 & e2 & Hs & H & ->).
     apply ret_inv in H. destruct H as (-> & _ & ->). rewrite app_nil_r.
     assert (Hc : ctx_ok m Ev_Timeout None) by (simpl; auto).
-    apply (send_event_rule m _ None) in Hs; auto.
+    apply (send_event_rule m _ None lp) in Hs; auto.
   - destruct (is_finished terminal (m_cur m)).
     { apply ret_inv in H. destruct H as (-> & _ & ->). simpl. auto. }
     apply bind_inv in H. destruct H as ([m1 res] & w1 & e1 & e2 & Hs & H & ->).
     apply ret_inv in H. destruct H as (-> & _ & ->). rewrite app_nil_r.
-    apply recover_rule_holds in Hs; auto.
+    rewrite (Hlp eq_refl). apply recover_rule_holds in Hs; auto.
 Qed.
 
 End Rule.
